@@ -116,6 +116,14 @@ def ctype(n):
         return "rep_one_min_max< %d, %d, %s >" % (p["min"], p["max"], cchar(p["c"]))
     if o == "slot":
         return "vf::slot< %d >" % p["k"]
+    if o == "utf8_any":
+        return "utf8::any"
+    if o in ("utf8_one", "utf8_not_one"):
+        return "utf8::%s< %s >" % (o[5:], ", ".join("0x%x" % ord(c) for c in p["s"]))
+    if o in ("utf8_range", "utf8_not_range"):
+        return "utf8::%s< 0x%x, 0x%x >" % (o[5:], ord(p["lo"]), ord(p["hi"]))
+    if o == "utf8_string":
+        return "utf8::string< %s >" % ", ".join("0x%x" % ord(c) for c in p["s"])
     if o in ("seq", "sor", "star", "plus", "opt", "at", "not_at", "if_must", "if_must_else", "if_then_else", "list",
              "list_must", "list_tail", "minus", "must", "opt_must", "pad", "pad_opt", "partial", "star_partial",
              "star_must", "strict", "star_strict", "until", "rematch", "enable", "disable", "separated_seq"):
@@ -224,6 +232,19 @@ def expand(n):
         return E("SEQ", [E("ONE", s=c) for c in p["s"]])
     if o == "istring":
         return E("ISTRING", s=p["s"])
+    # utf8 rules: the corpora that use them run on ASCII-only alphabets, where they coincide with the byte rules
+    if o == "utf8_any":
+        return E("RANGE", a=0, b=127)
+    if o == "utf8_one":
+        return E("ONE", s=p["s"])
+    if o == "utf8_not_one":
+        return E("SEQ", [E("RANGE", a=0, b=127)]) if False else E("SEQ", [E("NOT_AT", [E("ONE", s=p["s"])]), E("RANGE", a=0, b=127)])
+    if o == "utf8_range":
+        return E("RANGE", a=ord(p["lo"]), b=ord(p["hi"]))
+    if o == "utf8_not_range":
+        return E("SEQ", [E("NOT_AT", [E("RANGE", a=ord(p["lo"]), b=ord(p["hi"]))]), E("RANGE", a=0, b=127)])
+    if o == "utf8_string":
+        return E("SEQ", [E("ONE", s=c) for c in p["s"]])
     if o == "two":
         return E("REP", [E("ONE", s=p["c"])], a=2)
     if o == "three":
@@ -594,6 +615,7 @@ def emit_grammar(g, gi, cfgset_macro="VF_CFGS"):
         seen.add(ct)
         out.append(" reg.map[ std::type_index( typeid( %s ) ) ] = %d;" % (ct, idx))
     out.append(" g.top = %d;" % L.rule_idx[0])
+    out.append(" g.eol_policy = VF_EOL_ID;")
     out.append(" g.tag.assign( g.nodes.size(), 0 ); for( std::size_t i = 0; i < g.nodes.size(); ++i ) if( !g.nodes[ i ].tname.empty() ) g.tag[ i ] = int( vf::tag_of_name( g.nodes[ i ].tname ) );")
     out.append("}")
     js = json.dumps(g.to_json(), separators=(",", ":"))
@@ -634,8 +656,14 @@ def grammar_alphabet(g):
     return "".join(s)
 
 
-def emit_tu(grammars, cfgset=2, extra_includes=(), first_index=0):
+EOL_POLICIES = ["lf_crlf", "lf", "cr", "crlf", "cr_crlf"]
+
+
+def emit_tu(grammars, cfgset=2, extra_includes=(), first_index=0, eol=0):
     out = ["// generated by vf/gen.py - do not edit", "#define VF_CFGSET %d" % cfgset]
+    if eol:
+        out.append("#define VF_EOL tao::pegtl::eol::%s" % EOL_POLICIES[eol])
+        out.append("#define VF_EOL_ID %d" % eol)
     for inc in extra_includes:
         out.append('#include %s' % inc)
     out.append('#include "harness/corpus_main.hpp"')
@@ -688,6 +716,47 @@ class Gen:
             return N("seq", [N("one", s=r.choice("ab")), N("one", s=r.choice("abc"))])
         if a == "slot":
             return N("slot", k=r.randrange(self.slots))
+        # ---- atoms whose character sets do / do not contain an end-of-line character (C06: bump_help decision) ----
+        if a == "nl_one":
+            return N("one", s=r.choice(["\n", "\r", "\n\r"]))
+        if a == "nl_set":
+            return N("one", s=r.choice(["a\n", "b\r", "ab\n\r", "a\r\n"]))
+        if a == "not_one_nl":
+            return N("not_one", s=r.choice(["a", "b", "\n", "\r", "a\n", "ab"]))
+        if a == "range_ws":
+            return N("range", lo="\t", hi="\r")
+        if a == "not_range_ws":
+            return N("not_range", lo=r.choice(["\t", "\n", "a"]), hi=r.choice(["\n", "\r", "b"])) if False else N("not_range", lo="\n", hi="\r")
+        if a == "not_range_a":
+            return N("not_range", lo="a", hi="b")
+        if a == "ranges_nl":
+            return N("ranges", s=r.choice(["ab\n", "\t\rb", "\n\nab"]))
+        if a == "string_nl":
+            return N("string", s=r.choice(["a\n", "\nb", "\r\n", "a\rb", "\n\n"]))
+        if a == "istring_nl":
+            return N("istring", s=r.choice(["\r\n", "a\n", "B\r"]))
+        if a == "bytes2":
+            return N("bytes", n=r.choice([1, 2, 3]))
+        if a == "until_eol":
+            return N("until", [N("eol")])
+        if a == "until_nl_any":
+            return N("until", [N("one", s="\n"), N("any")])
+        if a == "utf8_any":
+            return N("utf8_any")
+        if a == "utf8_one_nl":
+            return N("utf8_one", s=r.choice(["\n", "a\n", "\r", "b"]))
+        if a == "utf8_not_one":
+            return N("utf8_not_one", s=r.choice(["a", "\n", "b\r"]))
+        if a == "utf8_range_nl":
+            return N("utf8_range", lo=r.choice(["\t", "\n"]), hi=r.choice(["\r", "b"]))
+        if a == "utf8_not_range":
+            return N("utf8_not_range", lo="a", hi="b")
+        if a == "utf8_string_nl":
+            return N("utf8_string", s=r.choice(["a\n", "\r\n", "\nb"]))
+        if a == "three_nl":
+            return N("three", c="\n")
+        if a == "rep_one_nl":
+            return N("rep_one_min_max", min=r.choice([0, 1]), max=r.choice([1, 2, 3]), c=r.choice(["\n", "\r", "a"]))
         return N(a)
 
     def expr(self, depth, nrules, allow_ref=True):
